@@ -2,7 +2,7 @@
 from harness.common import Report, import_hpl, rng, tier
 from harness.rewrite_driver import Recorder, corrupt_first, derived_pass, family_texts, parse_inputs
 
-FAMS = ['slots', 'alias', 'quants', 'bool1w', 'bool2', 'negbool']
+FAMS = ['slots', 'alias', 'quants', 'bool1w', 'bool2', 'negbool', 'capture']
 
 
 def canary(events):
